@@ -642,6 +642,7 @@ func substParams(l linear, callee *ssa.Function, args []ssa.Value) linear {
 }
 
 var markerOnlyMemo = map[*ssa.Function]int64{}
+var markerOnlyBusy = map[*ssa.Function]bool{}
 
 // markerOnlyHelper: callee writes nothing but one constant marker to the sink it is handed
 // (writeSOD(buf)); returns the marker or -1.
@@ -649,10 +650,14 @@ func markerOnlyHelper(sc *ssa.Function, sink ssa.Value, args []ssa.Value) int64 
 	if sc.Blocks == nil || !load.InScope(sc) || len(args) != len(sc.Params) {
 		return -1
 	}
-	if m, ok := markerOnlyMemo[sc]; ok {
+	if m, ok := markerOnlyMemo[sc]; ok && m >= 0 {
 		return m
 	}
-	markerOnlyMemo[sc] = -1
+	if markerOnlyBusy[sc] {
+		return -1
+	}
+	markerOnlyBusy[sc] = true
+	defer delete(markerOnlyBusy, sc)
 	si := -1
 	for i, a := range args {
 		if unwrapIface(a) == sink && isSinkType(sc.Params[i].Type()) {
@@ -663,7 +668,19 @@ func markerOnlyHelper(sc *ssa.Function, sink ssa.Value, args []ssa.Value) int64 
 		return -1
 	}
 	ws, ordered := sinkWritesOf(sc, sc.Params[si])
-	if !ordered || len(ws) != 1 || ws[0].what != "marker" || ws[0].marker < 0xFF00 {
+	if !ordered || len(ws) != 1 || ws[0].what != "marker" {
+		return -1
+	}
+	if ws[0].marker == -2 {
+		// appendMarker(buf, m): the marker is the helper's own parameter
+		if pi := paramIndex(sc, stripConv(ws[0].val)); pi >= 0 && pi < len(args) {
+			if m := constMarker(args[pi]); m >= 0xFF00 {
+				return m // not memoised: depends on the call
+			}
+		}
+		return -1
+	}
+	if ws[0].marker < 0xFF00 {
 		return -1
 	}
 	markerOnlyMemo[sc] = ws[0].marker
